@@ -5,9 +5,9 @@ import (
 	"compress/flate"
 	"compress/zlib"
 	"crypto/sha256"
-	"encoding/hex"
 	"io"
 	"regexp"
+	"strconv"
 
 	"verif/harness/internal/pdfstrict"
 )
@@ -298,14 +298,6 @@ func searchPDF(data []byte) (hits, searchStats) {
 	}
 	if d != nil {
 		st.Encrypted = d.Encrypted
-		for _, sec := range d.Sections() {
-			for num, e := range sec.Entries {
-				if e.Type != pdfstrict.InUse {
-					continue
-				}
-				_ = num
-			}
-		}
 		for _, num := range d.Objects() {
 			e, ok := d.Entry(num)
 			if !ok {
@@ -337,27 +329,4 @@ func searchPDF(data []byte) (hits, searchStats) {
 	return h, st
 }
 
-func itoa(i int) string {
-	const digits = "0123456789"
-	if i == 0 {
-		return "0"
-	}
-	var b [20]byte
-	p := len(b)
-	neg := i < 0
-	if neg {
-		i = -i
-	}
-	for i > 0 {
-		p--
-		b[p] = digits[i%10]
-		i /= 10
-	}
-	if neg {
-		p--
-		b[p] = '-'
-	}
-	return string(b[p:])
-}
-
-func hexOf(b []byte) string { return hex.EncodeToString(b) }
+func itoa(i int) string { return strconv.Itoa(i) }
